@@ -54,7 +54,18 @@ def main(argv=None):
             os.execve(sys.executable, [sys.executable, '-O', '-m', 'vcheck'] +
                       sys.argv[1:], dict(os.environ))
         try:
-            mod.replay(rec)
+            pair = (rec.get('case') or {}).get('preempt_pair') \
+                if isinstance(rec.get('case'), dict) else None
+            iface = (rec.get('case') or {}).get('interface') \
+                if isinstance(rec.get('case'), dict) else None
+            if iface:
+                from vcheck import callstyle
+                callstyle.check(core.Collector(), iface[0], [iface[1]])
+            elif pair and getattr(mod, 'PREEMPT_MODULES', None):
+                core.preempt_pair(core.Collector(), prop,
+                                  mod.PREEMPT_MODULES, pair[0], pair[1])
+            else:
+                mod.replay(rec)
         except core.Violation as v:
             print('replay: %s' % v)
             print('VIOLATION property=%s replay=%s' % (prop, args.replay))
@@ -123,6 +134,13 @@ def main(argv=None):
                        and t not in keep]
                 keep.extend(hit[:int(lim)] if lim else hit)
             tasks = [t for t in tasks if t in keep]
+        if getattr(mod, 'INTERFACE', None) and not args.only:
+            from vcheck import callstyle
+            for m_, names_ in mod.INTERFACE:
+                tasks.insert(0, core.Task('interface', callstyle.check,
+                                          module=m_, names=names_))
+        if args.only:
+            pass
         elif getattr(mod, 'OPT_SUBS', None) and \
                 not os.environ.get('VERIF_CHILD'):
             # ambient interpreter configuration: the cheap deterministic
@@ -130,6 +148,18 @@ def main(argv=None):
             tasks.insert(0, core.Task('python-O', core.optimized_child,
                                       prop=prop, subs=list(mod.OPT_SUBS)))
         col, timings = core.run_tasks(tasks, budget_s=budget)
+        if getattr(mod, 'PREEMPT_MODULES', None) and not args.only and \
+                not os.environ.get('VERIF_CHILD'):
+            # schedules: pairs of cases this run has judged, one suspended
+            # at every line of the code under test while the other runs
+            ptasks = core.preempt_tasks(
+                col, prop, mod.PREEMPT_MODULES, seed,
+                pairs=8 if tier == 'quick' else 64)
+            if ptasks:
+                pcol, ptimes = core.run_tasks(ptasks, budget_s=budget)
+                col.merge(pcol.dump())
+                timings = sorted(timings + ptimes)
+                tasks = tasks + ptasks
         for rec in col.failures:
             classify(rec)
     except core.HarnessError as e:
